@@ -288,10 +288,15 @@ def run(repo, rep):
                 n_app += 1
                 if not any(e.kind == 'call:_process_incoming' or e.kind == 'decode' for e in tr[i + 1:]):
                     problems.append('path appends received bytes (line %d) and returns without trying to frame a PDU' % ev.line)
-            if ev.kind == 'recv' and '.recv' in ev.callee and ev.args and ev.args != ('1',):
-                if any(c == '+' + BUF for c in ev.conds):
-                    if not any(e.kind == 'call:_process_incoming' for e in tr[:i]):
-                        problems.append('socket read at line %d while buffered bytes were not tried first' % ev.line)
+            if ev.kind == 'recv' and '.recv' in ev.callee:
+                if any(c.startswith('+') and 'States.STA_13' in c and 'current_state' in c for c in ev.conds):
+                    continue   # Sta13: waiting for the peer's close, whatever arrives is discarded (AA-6)
+                tried = any(e.kind == 'call:_process_incoming' for e in tr[:i])
+                empty = any(c in ('-' + BUF, '+not ' + BUF, '+len(%s) == 0' % BUF, '-len(%s)' % BUF) for c in ev.conds)
+                if not tried and not empty:
+                    problems.append('the socket is read (line %d) on a path where the buffer may hold bytes that were not '
+                                    'offered to the framer first: a close or further data overtakes complete PDUs already '
+                                    'buffered' % ev.line)
     if n_app == 0:
         problems.append('no path appends the received bytes to the buffer')
     rep.check(not problems, 'C03.B3', 'dulprovider:DULServiceProvider._check_network:drain-order',
